@@ -165,7 +165,11 @@ def mask_case(draw, tier):
     k = draw(st.integers(0, 2**31 - 1))
     return {"mask": m.astype(int), "vals": vals, "seed": k, "pad": [draw(st.integers(0, 3)), draw(st.integers(0, 3))],
             "layout": draw(gen.layouts()),
-            "threshold": draw(st.sampled_from([0, 0, 0.5]))}
+            "threshold": draw(st.sampled_from([0, 0, 0.5])),
+            # samples that are not numbers or not finite (bad pixels flagged NaN, OPD maps that are NaN outside the
+            # aperture, -inf / negative background): "above the threshold" is a statement about each sample
+            "special": draw(st.sampled_from(["none", "none", "none", "nan", "nan", "nan_outside", "neg", "-inf", "+inf"])),
+            "n_special": draw(st.integers(1, 4)), "where": draw(st.lists(st.integers(0, 10**6), min_size=4, max_size=4))}
 
 
 @hyp("C20", "bounds", lambda tier: mask_case(tier),
@@ -178,15 +182,24 @@ def bounds(case, ctx):
     if case["vals"] == "weights":
         x = x * rng.uniform(0.6, 3.0, size=m.shape)
     thr = case["threshold"]
+    special = case.get("special", "none")
+    if special == "nan_outside":
+        x = np.where(m != 0, x, np.nan)
+    elif special != "none":
+        val = {"nan": np.nan, "neg": -2.5, "-inf": -np.inf, "+inf": np.inf}[special]
+        x = x.copy()
+        for k in case["where"][:case["n_special"]]:
+            x.flat[k % x.size] = val
     x = gen.relayout(x, case.get("layout"))
-    sel = np.argwhere(x > thr)
+    with np.errstate(invalid="ignore"):
+        sel = np.argwhere(x > thr)
     if len(sel) == 0:
         raise Skip("empty_after_threshold")
     want = (int(sel[:, 0].min()), int(sel[:, 0].max()), int(sel[:, 1].min()), int(sel[:, 1].max()))
     centred = (want[0] + (want[1] - want[0] + 1) // 2 == m.shape[0] // 2) and \
               (want[2] + (want[3] - want[2] + 1) // 2 == m.shape[1] // 2)
     ctx.tag("layout:" + str(case.get("layout")), "offcentre" if not centred else "centred", gen.parity_tags("m", m.shape),
-            "pad" if any(case["pad"]) else None)
+            "pad" if any(case["pad"]) else None, "special:" + special)
     ctx.nontrivial_if(not centred)
     x0 = x.copy()
     with lentil_call("C20.boundary", "boundary"):
@@ -212,16 +225,18 @@ def bounds(case, ctx):
     rr0 = m.shape[0] // 2 + want_off[0] - sub.shape[0] // 2
     cc0 = m.shape[1] // 2 + want_off[1] - sub.shape[1] // 2
     canvas[rr0:rr0 + sub.shape[0], cc0:cc0 + sub.shape[1]] = sub
-    if not np.array_equal(canvas * (x > thr), x * (x > thr)):
+    with np.errstate(invalid="ignore"):
+        above = x > thr
+    if not np.array_equal(np.where(above, canvas, 0), np.where(above, x, 0)):
         raise Violation("C20.slice_offset.embed", "slice + offset do not reproduce the masked array")
-    if x.sum() > 0:
+    if special == "none" and x.sum() > 0:
         with lentil_call("C20.centroid", "centroid"):
             cr, cc = lentil.centroid(x)
         ii, jj = np.indices(x.shape)
         er, ec = float((ii * x).sum() / x.sum()), float((jj * x).sum() / x.sum())
         if abs(cr - er) > 1e-9 * (1 + m.shape[0]) or abs(cc - ec) > 1e-9 * (1 + m.shape[1]):
             raise Violation("C20.centroid", f"centroid = {(cr, cc)}, first moment = {(er, ec)}")
-    if not np.array_equal(x, x0):
+    if not np.array_equal(x, x0, equal_nan=True):
         raise Violation("C20.bounds.input_mutated", "helper modified its input")
     with lentil_call("C20.slice_offset", "slice_offset(Ellipsis)"):
         if tuple(lhelper.slice_offset(Ellipsis, m.shape)) != (0, 0):
